@@ -7,6 +7,7 @@ use geodesy::authoring::*;
 pub fn exec_oracle(kind: &str, fields: &[&str]) -> String {
     match kind {
         "S_C12" => oracle_c12(fields),
+        "S_C02" => oracle_c02(fields),
         "S_C03" => oracle_c03(fields),
         "S_C04" => oracle_c04(fields),
         "S_C07" => oracle_c07(fields),
@@ -748,4 +749,142 @@ fn oracle_c11_unit(fields: &[&str]) -> String {
         }
     }
     "oracle pass".to_string()
+}
+
+// ----- C02: a tuple's result depends on the operator and on that tuple only ------------------
+
+fn bits_eq(a: &Coor4D, b: &Coor4D, dims: usize) -> bool {
+    (0..dims).all(|i| a[i].to_bits() == b[i].to_bits() || (a[i].is_nan() && b[i].is_nan()))
+}
+
+fn oracle_c02(fields: &[&str]) -> String {
+    let spec = crate::exec::CtxSpec { kind: fields[0].to_string(), resources: vec![], users: vec![] };
+    let def = unescape(fields[1]);
+    let dir = if fields[2] == "I" { Inv } else { Fwd };
+    let seed: u64 = fields[3].parse().unwrap_or(1);
+    let data = parse_data(fields[4]);
+    let d = |x: &Direction| if *x == Inv { Inv } else { Fwd };
+    crate::exec::with_ctx(&spec, |ctx| {
+        let op = match ctx.op(&def) {
+            Ok(op) => op,
+            Err(e) => return format!("oracle skip not instantiable ({})", err_class(&e)),
+        };
+        let mut rng = crate::rng::Rng(seed);
+        // the whole set
+        let mut full = data.clone();
+        let nfull = match ctx.apply(op, d(&dir), &mut full) {
+            Ok(n) => n,
+            Err(e) => return format!("oracle FAIL apply err {}", err_class(&e)),
+        };
+        if nfull > data.len() {
+            return format!("oracle FAIL count {nfull} exceeds the set size {}", data.len());
+        }
+        // history: other data through the same handle first, in both directions
+        let mut other: Vec<Coor4D> = data.iter().rev().map(|c| Coor4D([c[1], c[0], c[3], c[2]])).collect();
+        let _ = ctx.apply(op, Fwd, &mut other);
+        let _ = ctx.apply(op, Inv, &mut other);
+        // every tuple alone
+        let mut sum = 0usize;
+        for (i, c) in data.iter().enumerate() {
+            let mut one = [*c];
+            let n1 = ctx.apply(op, d(&dir), &mut one).unwrap_or(usize::MAX);
+            sum += n1;
+            if !bits_eq(&one[0], &full[i], 4) {
+                return format!(
+                    "oracle FAIL tuple {i} of {}: alone {} but in the set {} ({def})",
+                    data.len(),
+                    dump_data(&one),
+                    dump_data(&[full[i]])
+                );
+            }
+        }
+        // elementary operators: the count of the whole is the sum over the parts
+        let elementary = !def.contains('|');
+        if elementary && sum != nfull {
+            return format!("oracle FAIL count of the set {nfull} but the singletons sum to {sum} ({def})");
+        }
+        // a permutation of the set
+        let mut idx: Vec<usize> = (0..data.len()).collect();
+        for i in (1..idx.len()).rev() {
+            idx.swap(i, rng.below(i + 1));
+        }
+        let mut perm: Vec<Coor4D> = idx.iter().map(|i| data[*i]).collect();
+        let _ = ctx.apply(op, d(&dir), &mut perm);
+        for (k, i) in idx.iter().enumerate() {
+            if !bits_eq(&perm[k], &full[*i], 4) {
+                return format!("oracle FAIL order dependence: tuple {i} gives {} at position {k} of a permutation but {} in place ({def})", dump_data(&[perm[k]]), dump_data(&[full[*i]]));
+            }
+        }
+        // a partition into chunks
+        if data.len() >= 2 {
+            let mut start = 0;
+            while start < data.len() {
+                let len = 1 + rng.below((data.len() - start).min(17));
+                let mut chunk: Vec<Coor4D> = data[start..start + len].to_vec();
+                let _ = ctx.apply(op, d(&dir), &mut chunk);
+                for k in 0..len {
+                    if !bits_eq(&chunk[k], &full[start + k], 4) {
+                        return format!("oracle FAIL chunking: tuple {} gives {} in a chunk [{start},{}) but {} in the whole set ({def})", start + k, dump_data(&[chunk[k]]), start + len, dump_data(&[full[start + k]]));
+                    }
+                }
+                start += len;
+            }
+        }
+        // repeated on a fresh copy: the operator has not changed
+        let mut again = data.clone();
+        let nagain = ctx.apply(op, d(&dir), &mut again).unwrap_or(usize::MAX);
+        if nagain != nfull || dump_data(&again) != dump_data(&full) {
+            return format!("oracle FAIL a second application on a fresh copy differs ({def})");
+        }
+        // containers: the same tuples through slices, arrays and the adapters
+        {
+            let mut v = data.clone();
+            let mut s: &mut [Coor4D] = &mut v[..];
+            let _ = ctx.apply(op, d(&dir), &mut s);
+            if dump_data(&v) != dump_data(&full) {
+                return format!("oracle FAIL slice container differs from vector ({def})");
+            }
+        }
+        if data.len() >= 3 {
+            let mut arr = [data[0], data[1], data[2]];
+            let mut vec3 = data[..3].to_vec();
+            let _ = ctx.apply(op, d(&dir), &mut arr);
+            let _ = ctx.apply(op, d(&dir), &mut vec3);
+            if dump_data(&arr) != dump_data(&vec3) {
+                return format!("oracle FAIL array container differs from vector ({def})");
+            }
+        }
+        // 3D tuples with a fixed epoch: (Vec<Coor3D>, t) against 4D tuples carrying that epoch
+        let t0 = 2010.0;
+        let at: Vec<Coor4D> = data.iter().map(|c| Coor4D([c[0], c[1], c[2], t0])).collect();
+        let mut ref4 = at.clone();
+        let _ = ctx.apply(op, d(&dir), &mut ref4);
+        let mut c3 = (data.iter().map(|c| Coor3D([c[0], c[1], c[2]])).collect::<Vec<_>>(), t0);
+        let _ = ctx.apply(op, d(&dir), &mut c3);
+        for (a, b) in c3.0.iter().zip(ref4.iter()) {
+            let a4 = Coor4D([a[0], a[1], a[2], 0.0]);
+            if !bits_eq(&a4, b, 3) {
+                return format!("oracle FAIL (Vec<Coor3D>, epoch) gives {:?} but the 4D tuple gives {} ({def})", a.0, dump_data(&[*b]));
+            }
+        }
+        // 2D tuples with fixed height and epoch.  Only for elementary operators: between the steps
+        // of a pipeline a 2D container keeps two elements, as documented for `set_coord`, so a
+        // pipeline passing through 3D intermediate results legitimately differs
+        if !elementary {
+            return "oracle pass".to_string();
+        }
+        let h0 = 25.0;
+        let at: Vec<Coor4D> = data.iter().map(|c| Coor4D([c[0], c[1], h0, t0])).collect();
+        let mut ref4 = at.clone();
+        let _ = ctx.apply(op, d(&dir), &mut ref4);
+        let mut c2 = (data.iter().map(|c| Coor2D([c[0], c[1]])).collect::<Vec<_>>(), h0, t0);
+        let _ = ctx.apply(op, d(&dir), &mut c2);
+        for (a, b) in c2.0.iter().zip(ref4.iter()) {
+            let a4 = Coor4D([a[0], a[1], 0.0, 0.0]);
+            if !bits_eq(&a4, b, 2) {
+                return format!("oracle FAIL (Vec<Coor2D>, height, epoch) gives {:?} but the 4D tuple gives {} ({def})", a.0, dump_data(&[*b]));
+            }
+        }
+        "oracle pass".to_string()
+    })
 }
